@@ -290,10 +290,11 @@ Section HypOfKnown.
         assert (Hff : is_file (dw d) f = true) by (unfold is_file; rewrite En; reflexivity).
         assert (Hfg : mem_path f (ggone gh) = false).
         { destruct (mem_path f (ggone gh)) eqn:E0; [|reflexivity]. apply (inv_gone _ _ _ HI) in E0. congruence. }
+        apply orb_false_iff in Hx as [Hx Hx3].
         split; [exact Hc4|]. split; [exact Hx|]. split; [|split].
         * intro Hin. apply in_rnames in Hin as (f' & r' & Hin & [<-| <-]).
           -- apply (inv_rs _ _ _ HI) in Hin. congruence.
-          -- rewrite (tgt_in_pren f' f i Hin En) in Hc3. discriminate.
+          -- rewrite (tgt_in_pren f' f i Hin En) in Hx3. discriminate.
         * intro Hin. apply in_rnames in Hin as (f' & r' & Hin & [<-| <-]).
           -- apply (inv_rs _ _ _ HI) in Hin. congruence.
           -- apply (gi_rt _ _ _ HG) in Hin. congruence.
